@@ -85,4 +85,17 @@ PROPS = {
         "trusted_base": ["operands are read back through lp_polynomial_traverse / lp_upolynomial_unpack (the same API users see)"],
         "assumptions": ["shift only by the main variable of a non-constant polynomial (documented precondition)"],
     },
+    "C02": {
+        "level": "proof",
+        "lean_targets": ["LP.Props.C02"],
+        "harnesses": [{"name": "h_div", "quick": 12000, "thorough": 200000}],
+        "select": lambda t: t[1] in ("div", "udiv"),
+        "nontrivial": lambda t, r: True,
+        "rule": "instances A = Q0*B + R0 over Z, Z_5, Z_13 in 1-3 variables (degree gaps via x^k*A + small, vanishing remainders, scaled "
+                "non-primitive divisors, divisors in lower variables or constants, monic divisors for exact division with remainder), "
+                "through div/rem/divrem/prem/pdivrem/sprem/spdivrem/reduce/divides and the univariate div_exact/div_rem_exact/rem_exact/"
+                "div_pseudo/divides. Every case is a division instance, hence non-trivial; distinct = distinct line.",
+        "trusted_base": ["divisibility oracle = executable single-divisor division with multiply-back (sound by theorem; its completeness is not proved)"],
+        "assumptions": ["documented domain: divisor non-zero, main variable of the divisor not above that of the dividend, exact variants only on exactly divisible inputs"],
+    },
 }
